@@ -211,9 +211,12 @@ class Mon(Jaqmon):
             self._send({"op": "evalc", "prog": prog, "vars": [[a, b] for a, b in vars], "take": take,
                         "stream": list(stream), "chunk": chunk, "cases": cases[start:]})
             done_upto = start
+            first = True
             try:
                 while True:
-                    r = self._recv(timeout)
+                    # the first answer also pays for reading and parsing the whole request
+                    r = self._recv(timeout + (5 + (n - start) / 5000.0 if first else 0))
+                    first = False
                     if "p" in r:
                         k0 = start + r["p"]
                         for j, ch in enumerate(r["c"]):
